@@ -10,7 +10,7 @@ use flac_codec::encode::{FlacByteWriter, FlacSampleWriter};
 use serde_json::{json, Value};
 use std::io::{Cursor, Write};
 
-pub const RULE: &str = "write histories: (A) ALL compositions of an 18-unit (thorough 23) mono 8-bit input into write calls for the byte, sample and channel writers; (B,C) all histories with ≤2 (thorough ≤3 on B) cut points, plus a zero-length call at every position, on stereo 16-bit (17 PCM frames), 3-channel 24-bit (33 PCM frames), mono 12-bit (40) inputs, inputs that are exact multiples of the block size (stereo 16-bit 32 PCM frames, mono 8-bit 16, mono 32-bit 48) and ≤3 cuts on a mono 16-bit input of 70 PCM frames (4 blocks + remainder; byte writers ≤2 cuts) in the writer's native unit (bytes: cuts fall mid-sample and mid-PCM-frame); (D) trailing partial PCM frames of every possible length after 0, 5, 16 and 17 whole frames; × {byte LE, byte BE, sample, channel} × declared/undeclared × two option sets × history mode {plain; io::Write::flush after every write call (byte writers); writer dropped instead of finalized (≤1-cut histories)}; oracle = byte identity with the single-call sample-writer file; plus the path-based `create` constructors with overwrite() over an absent / shorter / much longer existing file (3 signal formats × 4 writers × declared/undeclared), compared with the in-memory file; reference-file hashes are compared across the 16 worker processes (run-to-run determinism)";
+pub const RULE: &str = "write histories: (A) ALL compositions of an 18-unit (thorough 23) mono 8-bit input into write calls for the byte, sample and channel writers; (B,C) all histories with ≤2 (thorough ≤3 on B) cut points, plus a zero-length call at every position, on stereo 16-bit (17 PCM frames), 3-channel 24-bit (33 PCM frames), mono 12-bit (40) inputs, inputs that are exact multiples of the block size (stereo 16-bit 32 PCM frames, mono 8-bit 16, mono 32-bit 48) and ≤3 cuts on a mono 16-bit input of 70 PCM frames (4 blocks + remainder; byte writers ≤2 cuts) in the writer's native unit (bytes: cuts fall mid-sample and mid-PCM-frame); (D) trailing partial PCM frames of every possible length after 0, 5, 16 and 17 whole frames; × {byte LE, byte BE, sample, channel} × declared/undeclared × two option sets × history mode {plain; io::Write::flush after every write call (byte writers); writer dropped instead of finalized (≤1-cut histories)}; oracle = byte identity with the single-call sample-writer file; plus the path-based `create` constructors with overwrite() over an absent / shorter / much longer existing file (3 signal formats × 4 writers × declared/undeclared) and the `create_cdda` constructors (absent / much longer existing file), compared with the in-memory file; reference-file hashes are compared across the 16 worker processes (run-to-run determinism)";
 pub const ASSUMPTIONS: &[&str] = &["PCM content is the fixed position-identifying signal; histories, not sample values, are the explored dimension here (values: C01)"];
 pub fn bounds(quick: bool) -> Value {
     json!({"compositions_n": if quick {18} else {23}, "max_cuts_B": if quick {2} else {3}, "max_cuts_C": 2, "partial_lengths": "all 1..w*ch-1 bytes / 1..ch-1 samples"})
@@ -127,7 +127,7 @@ fn partial_case(w: WriterKind, opt: &Opt, sig: &Sig, whole: &[i32], extra: usize
 
 /// The path-based constructors (`create`, with `Options::overwrite()`) writing over an existing, longer file: the finished
 /// file on disk must be the same bytes as the in-memory encode of the same PCM and options.
-fn disk_case(w: WriterKind, opt: &Opt, sig: &Sig, pcm: &[i32], existing: usize) -> Result<Vec<u8>, String> {
+fn disk_case(w: WriterKind, opt: &Opt, sig: &Sig, pcm: &[i32], existing: usize, cdda: bool) -> Result<Vec<u8>, String> {
     use flac_codec::encode::FlacChannelWriter;
     let options = opt.to_options()?.overwrite();
     let dir = std::path::Path::new("/verif/target/tmp").join(format!("c08-path-{}", std::process::id()));
@@ -141,7 +141,8 @@ fn disk_case(w: WriterKind, opt: &Opt, sig: &Sig, pcm: &[i32], existing: usize) 
         let ch = sig.ch as usize;
         match w {
             WriterKind::Sample => {
-                let mut wr = FlacSampleWriter::create(&p2, options, sig.rate, sig.bps, sig.ch, opt.declared.then_some(pcm.len() as u64)).map_err(e)?;
+                let t = opt.declared.then_some(pcm.len() as u64);
+                let mut wr = if cdda { FlacSampleWriter::create_cdda(&p2, options, t) } else { FlacSampleWriter::create(&p2, options, sig.rate, sig.bps, sig.ch, t) }.map_err(e)?;
                 wr.write(pcm).map_err(e)?;
                 wr.finalize().map_err(e)?;
             }
@@ -150,18 +151,19 @@ fn disk_case(w: WriterKind, opt: &Opt, sig: &Sig, pcm: &[i32], existing: usize) 
                 let bytes = pcm_bytes(pcm, sig.bps, big);
                 let total = opt.declared.then_some(bytes.len() as u64);
                 if big {
-                    let mut wr: FlacByteWriter<_, BigEndian> = FlacByteWriter::create(&p2, options, sig.rate, sig.bps, sig.ch, total).map_err(e)?;
+                    let mut wr: FlacByteWriter<_, BigEndian> = if cdda { FlacByteWriter::create_cdda(&p2, options, total) } else { FlacByteWriter::create(&p2, options, sig.rate, sig.bps, sig.ch, total) }.map_err(e)?;
                     wr.write_all(&bytes).map_err(ioe)?;
                     wr.finalize().map_err(e)?;
                 } else {
-                    let mut wr: FlacByteWriter<_, LittleEndian> = FlacByteWriter::create(&p2, options, sig.rate, sig.bps, sig.ch, total).map_err(e)?;
+                    let mut wr: FlacByteWriter<_, LittleEndian> = if cdda { FlacByteWriter::create_cdda(&p2, options, total) } else { FlacByteWriter::create(&p2, options, sig.rate, sig.bps, sig.ch, total) }.map_err(e)?;
                     wr.write_all(&bytes).map_err(ioe)?;
                     wr.finalize().map_err(e)?;
                 }
             }
             WriterKind::Channel => {
                 let chans = crate::codec::deinterleave(pcm, ch);
-                let mut wr = FlacChannelWriter::create(&p2, options, sig.rate, sig.bps, sig.ch, opt.declared.then_some((pcm.len() / ch) as u64)).map_err(e)?;
+                let t = opt.declared.then_some((pcm.len() / ch) as u64);
+                let mut wr = if cdda { FlacChannelWriter::create_cdda(&p2, options, t) } else { FlacChannelWriter::create(&p2, options, sig.rate, sig.bps, sig.ch, t) }.map_err(e)?;
                 wr.write(chans.iter().map(|c| &c[..]).collect::<Vec<_>>()).map_err(e)?;
                 wr.finalize().map_err(e)?;
             }
@@ -300,14 +302,17 @@ fn disk(ctx: &Ctx, acc: &mut Acc) {
             let opt = Opt { declared, ..Opt::base16() };
             let reference = encode(WriterKind::Sample, &opt, &sig, &pcm);
             for w in crate::codec::WRITERS {
-                for existing in [0usize, 10, 100_000] {
+                for (existing, cdda) in [(0usize, false), (10, false), (100_000, false), (0, true), (100_000, true)] {
+                    if cdda && !(sig.rate == 44100 && sig.bps == 16 && sig.ch == 2) {
+                        continue;
+                    }
                     if !ctx.mine() {
                         continue;
                     }
                     acc.states += 1;
                     acc.executions += 1;
                     acc.transitions += 3;
-                    let got = disk_case(w, &opt, &sig, &pcm, existing);
+                    let got = disk_case(w, &opt, &sig, &pcm, existing, cdda);
                     if let Err(e) = &got {
                         if e.starts_with("machinery:") {
                             acc.notes.push(format!("machinery: C08 on-disk case: {e}"));
@@ -319,14 +324,14 @@ fn disk(ctx: &Ctx, acc: &mut Acc) {
                         (Err(a), Err(b)) => err_class(a) == err_class(b),
                         _ => false,
                     };
-                    acc.outcome(format!("disk:{w:?}:existing{existing}:{}", if same { "same" } else { "DIFF" }));
+                    acc.outcome(format!("disk:{w:?}:existing{existing}:cdda{cdda}:{}", if same { "same" } else { "DIFF" }));
                     if !same {
                         let clause = match &got {
                             Err(e) if e.starts_with("panic:") => err_class(e),
                             Err(e) => format!("fails-{}", err_class(e)),
                             Ok(_) => "different-bytes".into(),
                         };
-                        acc.violation(format!("C08|{w:?}|on-disk|{clause}"), format!("{w:?}::create + overwrite() over an existing file of {existing} bytes ({}ch/{}bit): {} vs the in-memory file {}", sig.ch, sig.bps, brief(&got), brief(&reference)), json!({"kind":"write-disk","writer":format!("{w:?}"),"opt":opt.to_json(),"rate":sig.rate,"bps":sig.bps,"ch":sig.ch,"pcm":pcm,"existing":existing}));
+                        acc.violation(format!("C08|{w:?}|on-disk|{clause}"), format!("{w:?}::{} + overwrite() over an existing file of {existing} bytes ({}ch/{}bit): {} vs the in-memory file {}", if cdda { "create_cdda" } else { "create" }, sig.ch, sig.bps, brief(&got), brief(&reference)), json!({"kind":"write-disk","writer":format!("{w:?}"),"opt":opt.to_json(),"rate":sig.rate,"bps":sig.bps,"ch":sig.ch,"pcm":pcm,"existing":existing,"cdda":cdda}));
                     }
                 }
             }
@@ -368,7 +373,7 @@ pub fn replay(v: &Value) -> Option<(bool, String)> {
         "write-disk" => {
             let pcm = crate::core::ivec(&v["pcm"]);
             let reference = encode(WriterKind::Sample, &opt, &sig, &pcm);
-            let got = disk_case(w, &opt, &sig, &pcm, v["existing"].as_u64()? as usize);
+            let got = disk_case(w, &opt, &sig, &pcm, v["existing"].as_u64()? as usize, v["cdda"].as_bool().unwrap_or(false));
             let same = match (&got, &reference) {
                 (Ok(a), Ok(b)) => a == b,
                 (Err(a), Err(b)) => err_class(a) == err_class(b),
